@@ -120,6 +120,11 @@ func main() {
 			case 3:
 				rg.Do(func() error { return rg.S.Send(fixgen.CreateMarketDataRequestReject("r")) })
 				ctx = append(ctx, "send")
+			case 4:
+				// a sloppy peer asks for retransmissions over ranges that cannot be served as they stand
+				rs := [][2]int{{0, 0}, {0, 1}, {1, 0}, {5, 2}, {1, 99999}}[r.Intn(5)]
+				rg.Inbound(p.Resend(rs[0], rs[1]))
+				ctx = append(ctx, fmt.Sprintf("resend(%d,%d)", rs[0], rs[1]))
 			}
 			id := idFor(c, (i*7+k*131)%(255+40+12+400))
 			if i < 255+40+12 && k == 0 {
